@@ -50,12 +50,86 @@ def depth_probes(rng):
             yield text, v, 'depth-probe:' + name
 
 
+LONG = {
+    # single tokens and flat runs far longer than anything in the enumerations: the time to parse them must stay
+    # (nearly) linear - each is parsed in a child process under a generous limit
+    'digits-40': 'x = ' + '1234567890' * 4 + '\n', 'digits-77': 'p = 2 ** 255 - ' + '57896044618658097711785492504343953926634992332820282019728792003956564819949' + '\n',
+    'digits-400': 'x = ' + '9' * 400 + '\n', 'digits-underscore': 'x = ' + '_'.join(['123'] * 30) + '\n',
+    'float-long': 'x = ' + '1' * 60 + '.' + '2' * 60 + 'e' + '3' * 10 + '\n', 'hex-long': 'x = 0x' + 'abcdef0123' * 12 + '\n',
+    'imag-long': 'x = ' + '7' * 50 + 'j\n', 'digits-then-name': 'x = ' + '5' * 45 + 'abc\n', 'zeros': 'x = ' + '0' * 60 + '\n',
+    'name-long': 'a' * 20000 + ' = 1\n', 'string-long': 's = "' + 'ab ' * 30000 + '"\n', 'comment-long': '#' + ' x' * 40000 + '\n',
+    'blanks-long': 'x' + ' ' * 50000 + '= 1\n', 'operators-long': 'x = 1' + ' + 1' * 20000 + '\n', 'dots': 'x' + '.' * 3000 + '\n',
+    'backslash-chain': 'x = 1 + \\\n' * 3000 + '1\n', 'quotes': "'" * 3001 + '\n', 'fstring-braces': 'f"' + '{{' * 5000 + '"\n',
+    'fstring-fields': 'f"' + '{a}' * 3000 + '"\n', 'unterminated-triple': '"""' + 'line\n' * 5000, 'stars': 'x = ' + '*' * 3000 + 'y\n',
+    'bytes-escapes': 'b = b"' + '\\x00' * 10000 + '"\n', 'many-lines': 'x = 1\n' * 20000, 'semicolon-run': ';' * 5000 + '\n',
+    'non-ascii-name': '\u00e9' * 5000 + ' = 1\n', 'illegal-chars': '$?' * 5000 + '\n', 'at-run': '@' * 3000 + '\n',
+}
+CHILD = r"""
+import sys, time, json
+sys.path.insert(0, %r)
+import parso
+texts = json.load(sys.stdin)
+for name, ver, text in texts:
+    t = time.time()
+    try:
+        m = parso.load_grammar(version=ver).parse(text)
+        ok = 'ok' if m.get_code() == text else 'code-differs'
+    except RecursionError:
+        ok = 'ok'          # deep flat chains: outside the 100-level bound of the property
+    except Exception as e:
+        ok = 'raised ' + type(e).__name__
+    print(json.dumps([name, ver, ok, round(time.time() - t, 2)]), flush=True)
+"""
+
+
+def termination_probes(out, tier):
+    """C02 says parsing TERMINATES: long single tokens and long flat runs, each under a time limit in a child process"""
+    import json
+    import subprocess
+    from harness.common import REPO
+    versions = VERSIONS if tier == 'thorough' else [VERSIONS[0], VERSIONS[-1]]
+    todo = [[n, v, t] for n, t in LONG.items() for v in versions]
+    limit = 120          # seconds for one text (they take well under a second each)
+    done = 0
+    while todo:
+        p = subprocess.Popen(['/venv/bin/python', '-c', CHILD % REPO], stdin=subprocess.PIPE, stdout=subprocess.PIPE,
+                             stderr=subprocess.DEVNULL)
+        p.stdin.write(json.dumps(todo).encode())
+        p.stdin.close()
+        import select
+        finished = 0
+        while finished < len(todo):
+            r, _, _ = select.select([p.stdout], [], [], limit)
+            if not r:
+                break
+            line = p.stdout.readline()
+            if not line:
+                break
+            name, ver, ok, dt = json.loads(line)
+            finished += 1
+            done += 1
+            if ok != 'ok':
+                out.violation('NeverFails:%s|long-token' % ok.split()[0], 'Tree.ALL.NeverFails:raised',
+                              {'probe': name, 'version': ver, 'result': ok}, {'kind': 'probe', 'text': LONG[name], 'version': ver})
+        p.kill()
+        if finished < len(todo):
+            name, ver, text = todo[finished]
+            out.violation('Terminates|long-token', 'Tree.ALL.Terminates',
+                          {'probe': name, 'version': ver, 'limit_s': limit, 'text': text[:80]},
+                          {'kind': 'probe', 'text': text, 'version': ver})
+            todo = todo[finished + 1:]
+        else:
+            todo = []
+    out.cov(termination_probes=done)
+
+
 def run(tier):
     budget = 120000 if tier == 'thorough' else 24000
     out, res = _tree.run_groups(PROP, ['C02'], tier, {'nav': False, 'parts': False, 'posq': 0, 'code_budget': 0},
                                 budget, extra_items=depth_probes,
                                 note=' + depth probes (28 recursive constructs nested exactly 100 deep x 9 versions)')
     out.cov(depth_probes=28 * len(VERSIONS))
+    termination_probes(out, tier)
     try:
         from checks import _parserb
     except ImportError:
